@@ -258,6 +258,15 @@ def _check_parsed(spec, value, parsed, key, icls, all_untyped=True):
         if parsed is not None:
             return [{"oracle": "parsed", "site": "none", "key": k, "detail": f"no-content response parsed to {parsed!r}"}]
         return []
+    if kind == "file":
+        # a binary schema: the bytes of the body come back (as bytes or as a file object), whatever the media type says
+        payload = getattr(parsed, "payload", None)
+        data = bytes(parsed) if isinstance(parsed, (bytes, bytearray)) else None
+        if payload is not None and hasattr(payload, "read"):
+            data = payload.read()
+            payload.seek(0)
+        if data == raw:
+            return []
     if site.startswith("text/"):
         text = raw.decode()
         if parsed == text:
